@@ -201,6 +201,7 @@ class Model:
         self.parked: dict[tuple[int, int, int], str] = {}  # key -> encoded line
         self.pres_outstanding: set[int] = set()
         self.stale_ok: set[tuple[int, int, int]] = set()  # parked before the node re-presented: release optional
+        self.pres_maybe: set[int] = set()  # request-outstanding bit unspecified (node presented under 1.x rules)
         self.relaxations: Counter = Counter()
         self.local_epoch = None  # callable -> expected local-epoch int at "now"
         if version is not None:
@@ -324,6 +325,11 @@ class Model:
         if cmd == 0:
             if c == 255:
                 self.nodes[n] = new_node(t, p)
+                if n in self.pres_outstanding and not self.is2x:
+                    # C10 speaks about protocol 2.0 or newer only: whether a presentation received while older rules
+                    # are in force (gateway downgrade) re-arms the request is not specified
+                    self.pres_maybe.add(n)
+                    self.relaxations["presentation-under-1x-rules"] += 1
                 self.pres_outstanding.discard(n)
                 self.stale_ok.update(k for k in self.parked if k[0] == n)
                 if n == 0:
@@ -421,6 +427,14 @@ class Model:
                 d.append(("outcome", f"{loose}:{obs.kind}", repr(line)))
             if loose.startswith("version-"):
                 self._check_loose_version(loose, p, obs, d, line)
+            # an implementation that accepted the absurd payload may have released what was parked for the node:
+            # adopt what it demonstrably wrote
+            for wline, ok in obs.writes:
+                if ok:
+                    for key in [k for k, v in self.parked.items() if v == wline and k[0] == n]:
+                        del self.parked[key]
+                        self.stale_ok.discard(key)
+                        self.relaxations["release-adopted-after-loose-step"] += 1
             self._resync_all(obs)
             return d
 
@@ -510,7 +524,16 @@ class Model:
         # ---------------- presentation request (C10) ----------------
         missing = exp_err is not None and exp_err[0] in ("MissingNodeError", "MissingChildError",
                                                          "either-missing-unsupported")
-        if missing and self.is2x and exp_err[0] != "either-missing-unsupported":
+        if missing and self.is2x and exp_err[0] != "either-missing-unsupported" and n in self.pres_maybe:
+            self.pres_maybe.discard(n)
+            good = [x for x in pres if x[0][0] == n and x[0][5] == ""]
+            if len(pres) > 1 or len(good) != len(pres):
+                d.append(("writes.pres", "request-duplicated", f"node {n}: {[w for _, _, w in pres]}"))
+            if not pres or pres[0][1]:
+                self.pres_outstanding.add(n)  # either it was still outstanding, or it was just requested
+            else:
+                exp_err = ("transport", {})
+        elif missing and self.is2x and exp_err[0] != "either-missing-unsupported":
             if n in self.pres_outstanding:
                 if pres:
                     d.append(("writes.pres", "repeated-request", repr([w for _, _, w in pres])))
@@ -527,6 +550,8 @@ class Model:
             # unknown node + unsupported stream type: request allowed iff Missing* was chosen
             if obs.cls in ("MissingNodeError",) and pres and pres[0][1]:
                 self.pres_outstanding.add(n)
+            if pres and not pres[0][1]:
+                exp_err = ("transport", {})  # the request was attempted and its write failed
             self.relaxations["stream-either"] += 1
         elif pres:
             d.append(("writes.pres", "unexpected-request" if self.is2x else "request-under-1x",
